@@ -134,6 +134,9 @@ func genAssign(thorough bool) Gen {
 		{"mr()", func() Expr { return CallN("f3") }},
 		{"...", func() Expr { return Vararg() }},
 		{"nil", func() Expr { return Nil() }},
+		// multi-valued sources cut to one value by parentheses (aimed straight at the target's register)
+		{"(...)", func() Expr { return Paren(Vararg()) }},
+		{"(mr())", func() Expr { return Paren(CallN("f3")) }},
 	}
 	maxT, maxS := 3, 3
 	return func(yield func(*Prog)) {
@@ -280,6 +283,7 @@ func exprLeaves() []leaf {
 		{"f1()", func() Expr { return CallN("f1") }},
 		{"f3()", func() Expr { return CallN("f3") }},
 		{"...", func() Expr { return Vararg() }},
+		{"(...)", func() Expr { return Paren(Vararg()) }},
 		{"(f3())", func() Expr { return Paren(CallN("f3")) }},
 		// calls whose argument is the very local most destinations store into
 		{"fid(la)", func() Expr { return CallN("fid", Name("la")) }},
